@@ -19,6 +19,7 @@ EXPLANATION = (
     "exclude Faulty. PD-3: link-delay formula and the per-message corrections as linear forms against "
     "engine/spec/formulas.json. PD-4: every store into an existing peer-delay exchange is gated on the id match "
     "and on the requester identity; a new exchange inherits nothing."
+    ' PD-8 (= C16 OPS-1): the Time/Duration operators used for t4 and the link delay have their arithmetic meaning for operands of either sign.'
 )
 NOT_DECIDED = ("whether a filter that only receives peer-delay samples steers the clock while Faulty (depends on the "
                "Filter impl); numeric exactness")
